@@ -133,6 +133,9 @@ pub(crate) fn add_str_get<W, R, T>(
             let s = to_primitive!(a0, String);
             let i = to_primitive!(a1, Int);
             let Some(i) = if i.is_negative() { Cow::Owned(i + s.len()) } else { Cow::Borrowed(i) }.to_usize() else { xraise!(Err(ManagedXError::new("index too large",rt)?)) };
+            if i >= s.len() {
+                return xerr(ManagedXError::new("index out of bounds", rt)?);
+            }
             Ok(ManagedXValue::new(XValue::String(Box::new(s.substring(i, Some(i + 1)))), rt)?.into())
         }),
     )
